@@ -182,6 +182,8 @@ def unparse(e, depth=0):
         return "%s(%s)" % ("::".join(e["path"]["segs"]), ", ".join(unparse(a, d) for a in e["elems"]))
     if k == "PTuple":
         return "(%s)" % ", ".join(unparse(a, d) for a in e["elems"])
+    if k == "PStruct":
+        return "%s { %s }" % ("::".join(e["path"]["segs"]), ", ".join(fl["member"] if fl["pat"].get("k") == "PIdent" and fl["pat"].get("name") == fl["member"] else "%s: %s" % (fl["member"], unparse(fl["pat"], d)) for fl in e["fields"]))
     if k == "PWild":
         return "_"
     if k == "POr":
